@@ -294,7 +294,7 @@ def range_hists(ctx, invs, mode, widths=None, spec_violation_is=None):
 
 # (W, S, MaxData, MaxSyms, PSet)
 RDEC_QUICK = [(2, 4, 4, 2, "{1,2}"), (2, 6, 4, 2, "{1,2}"), (3, 6, 3, 2, "{1,3}")]
-RDEC_THOROUGH = [(2, 4, 5, 3, "{1,2}"), (2, 6, 5, 3, "{1,2}"), (3, 6, 3, 2, "{1,2,3}"), (2, 8, 5, 2, "{1,2}"), (4, 8, 3, 2, "{2,4}")]
+RDEC_THOROUGH = [(2, 4, 5, 3, "{1,2}"), (2, 6, 5, 3, "{1,2}"), (3, 6, 3, 2, "{1,2,3}"), (2, 8, 5, 2, "{1,2}"), (4, 8, 2, 2, "{2,4}")]
 
 
 def rdec_cases(ctx, mode):
